@@ -39,8 +39,10 @@ CLAIMS["C07"] = {
             "otherwise, and run() re-enters the preamble phase only with close()'s Ok value (R7.4); the hand-off to the next request keeps the "
             "unread input (R7.5), the buffer is compacted before every in-request read (R7.6), a stream switch always demotes a record of the "
             "old stream in flight and close() never drives the parser at a record boundary (R7.7), pending management replies are drained by exactly the "
-            "count the transport accepted so none is sent twice before the epilogue (R7.8); close() reads the writeable flag only after it awaited writeable() (R7.3). Does NOT decide byte-level output "
-            "correctness per transport split, nor that the handler sees exactly the request's environment/streams (C01/C02/C09).",
+            "count the transport accepted so none is sent twice before the epilogue (R7.8); close() reads the writeable flag only after it awaited writeable() (R7.3); "
+            "in the async read interfaces nothing that can return Pending / Err runs between a productive parse and returning its count, and transport counts reach "
+            "Parser::parse before any return, so a delayed write side cannot make the handler lose input (R7.9 = R9.3 / R9.7). Does NOT decide byte-level output "
+            "correctness per transport split, nor that the handler sees exactly the request's environment/streams beyond these necessary conditions (C01/C02/C09).",
     "note": "Parser APIs are events with their documented meaning; make_request_epilogue's own encoding is C17's subject.",
     "design_ref": "DESIGN.md §4 C07",
 }
@@ -52,7 +54,9 @@ CLAIMS["C13"] = {
             "(R13.1); the semaphore is created once with config.max_conns.get() and every Runner (incl. Clone) shares it (R13.2); no leak "
             "primitive exists anywhere in the crate and the permit field is never touched, Token is not Clone (R13.3, with a positive "
             "fixture proving the matcher fires); no field is ever moved out of a Token, so the permit lives exactly as long as the value handed to "
-            "the connection task (R13.4). Does NOT decide sentences 2-3 (immediate completion, wake-ups of queued requests, "
+            "the connection task (R13.4); in every async body that owns a Token on entry (Token::run's coroutine and whatever the token is handed on to) "
+            "an ownership dataflow shows the token, or a value it was moved into, still owned at every suspension point: no await is reachable after its holder was dropped "
+            "or consumed, so an unfinished Token::run future always holds its slot (R13.5). Does NOT decide sentences 2-3 (immediate completion, wake-ups of queued requests, "
             "cancellation): those are async-lock's behaviour.",
     "note": "async_lock::Semaphore / SemaphoreGuardArc semantics trusted; get_token having a single suspension point is checked as a necessary condition of 'completes immediately'.",
     "design_ref": "DESIGN.md §4 C13",
@@ -93,7 +97,8 @@ CLAIMS["C17"] = {
             "header)* EndRequest(status,id) (R17.4); write_response emits one GetValuesResult for id 0 with config.max_conns / \"0\", appended "
             "after existing contents, and RESPONSE_LEN covers the maximum by constant arithmetic (R17.5); the padding rule is {0, 8-r} (R17.6); "
             "to_bytes/from_bytes of the four wire structs agree with each other and the spec layout, big-endian (R17.7); the version is "
-            "validated before the type (R17.8). Does NOT decide round-trip equality over all field values, reserved-byte behaviour, or the "
+            "validated before the type (R17.8); the stream list of the end-of-request sequence sent by Request::close is chosen from the writeable flag "
+            "only after close() made the request writeable (R17.9 = R7.3), so it is the role's output streams. Does NOT decide round-trip equality over all field values, reserved-byte behaviour, or the "
             "arithmetic inside nv::write / integer formatting.",
     "note": "spec/fastcgi.json is written from the FastCGI specification and the crate documentation, not from the code.",
     "design_ref": "DESIGN.md §4 C17",
@@ -101,8 +106,8 @@ CLAIMS["C17"] = {
 
 CLAIMS["C15"] = {
     "technique": "decision-table extraction + constant and construction-site checks; cell-wise reaching definitions over byte terms (engine E9) for the codec bodies",
-    "text": "Decides six structural obligations whose conjunction implies the statement by the hand proof in DESIGN.md: MAX == 2^31-1 and "
-            "LONG_BIT == 0x80 (O1); TryFrom<u32> fails exactly for v > MAX and TryFrom<usize> delegates through u32 (O2); VarInt values are "
+    "text": "Decides six structural obligations whose conjunction implies the statement by the hand proof in DESIGN.md: MAX == 2^31-1 (O1; the long-form bit 0x80 "
+            "is the specification's constant inside the O4 tables, whatever the source calls or however it spells it); TryFrom<u32> fails exactly for v > MAX and TryFrom<usize> delegates through u32 (O2); VarInt values are "
             "constructed only at range-preserving sites (O3); on every path the decoder yields VarInt(in[0]) after one byte when in[0] & LONG_BIT == 0 and "
             "VarInt(from_be_bytes[in[0] & !LONG_BIT, in[1], in[2], in[3]]) after four otherwise, the encoder writes [self.0 as u8] when self.0 < LONG_BIT and "
             "[be(self.0)[0] | LONG_BIT, be[1], be[2], be[3]] otherwise - tables of normalised byte terms per path, independent of how the scratch arrays are "
@@ -187,6 +192,7 @@ CLAIMS["C03"] = {
             "callee postconditions), and request::State::drive feeds each drive's Continue back unchanged, Header/Params drives consume on every Continue, "
             "Skip/GetValues drives hand over to a consuming or final state without growing the input and stop only while their record is incomplete (R3.13). "
             "A record state in flight is replaced only where C04 R4.5 allows (R3.14: the reply to a partially received GetValues cannot depend on when set_stream is called). "
+            "The fatal StuckOnInput verdict is taken on the buffer fill left after the drive and the compaction, not on the fill at call entry, which the chunking decides (R3.15 = R6.2). "
             "Does NOT decide panics outside those obligations (expect/unwrap on Option/Result values, e.g. in parse_buffered's length "
             "arithmetic: inventory reported as information) nor chunking-invariance of outcomes beyond these necessary conditions.",
     "note": "R3.11 assumes three callee contracts (io::Write::write returns n <= buf.len(); NVIter only shrinks its slice, see C16 R16.1/R16.2; the remainder "
@@ -228,7 +234,8 @@ CLAIMS["C16"] = {
             "by the two length prefixes (the advancing cursor) + name_len + val_len, all via checked_add, and is carved as "
             "prefix.advance_by(head).split_at(name_len) (R16.2); one generic Iterator impl serves shared and mutable slices and the two "
             "Bytes impls have the same shape (R16.3); the encoder validates lengths through VarInt::try_from (InvalidInput), writes "
-            "prefix, prefix, name, value and returns exactly the bytes written (R16.4); size_hint is (0, len/2) (R16.5). Zero-copy is a "
+            "prefix, prefix, name, value and returns exactly the bytes written (R16.4); size_hint is (0, len/2) (R16.5); the prefix encoder nv::write relies on emits the "
+            "complete one- or four-byte form through write_all for every writer and returns exactly that count (R16.6 = C15 O4-write / O6). Zero-copy is a "
             "type-level fact (witness). Does NOT decide round-trip equality, prefix-monotonicity over all inputs, or the size-hint "
             "inequality as computed facts.",
     "note": "VarInt::read/write behaviour is C15's subject.",
